@@ -825,6 +825,7 @@ def _masks_hfs_intersection(sym, ts, Ds, hfs):
         else:  # op[it - 1] == 's':
             lss = [_leg_structure_combine_charges_sum(tt1, DD1) for tt1, DD1, in zip(tt, DD)]
             ma = [_merge_masks_sum(ls1, ms1) for ls1, ms1 in zip(lss, mss)]
+            ma = [{tk: mk for tk, mk in ma1.items() if tk in t1[it - 1]} for ma1, t1 in zip(ma, t)]  # a sum node records only charges present in its tensor
             reduced_ls = _leg_structure_combine_charges_sum(tuple(keeped_ts[:no]), tuple(keeped_Ds[:no]))
         _mask_falsify_mismatches_(ma[0], ma[1])
         msks[0].insert(io, ma[0])
